@@ -69,7 +69,9 @@ class ExtendedPropertyDictionary(MutableMapping[str, ExtendedPropertyValue]):
 
     def _merge(self, other: ExtendedPropertyDictionary) -> None:
         for key, value in other.items():
-            self._properties.setdefault(key, value)
+            if key not in self._properties:
+                self._properties[key] = value
+                self._notify_on_key_changed(key)
 
     def __reduce__(
         self,
